@@ -1366,4 +1366,36 @@ theorem can_quiesce (c : Cfg) (st : FSt) :
     obtain ⟨h5, h6, h7⟩ := fire_all c _ st2 rfl
     exact ⟨by rw [h6, h3, h1], by rw [h7, h2], h5⟩
 
+/-! ### the accept loop and `wellUsed` -/
+
+/-- a connection that has been opened stays well used as long as no connection event closes one -/
+theorem wellUsed_true_of_no_close (cn : Nat) (evs : List Ev) (h : ∀ sid, Ev.close sid ∉ evs) :
+    wellUsed cn true evs = true := by
+  induction evs with
+  | nil => rfl
+  | cons e t ih =>
+    have ht : ∀ sid, Ev.close sid ∉ t := fun sid hm => h sid (List.mem_cons_of_mem _ hm)
+    cases e with
+    | close sid => exact absurd List.mem_cons_self (h sid)
+    | «open» sid => simp [wellUsed, ih ht]
+    | send sid m => simp [wellUsed, ih ht]
+    | setKey sid k => simp [wellUsed, ih ht]
+    | front => simp [wellUsed, ih ht]
+    | back i => simp [wellUsed, ih ht]
+    | deliver i => simp [wellUsed, ih ht]
+    | fire i => simp [wellUsed, ih ht]
+    | expire i => simp [wellUsed, ih ht]
+    | lose i => simp [wellUsed, ih ht]
+    | dup i => simp [wellUsed, ih ht]
+
+/-- the `open` events of a batch of accepted connections -/
+theorem wellUsed_opens (cn : Nat) (conns : List Nat) (o : Bool) (evs : List Ev) :
+    wellUsed cn o (conns.map Ev.open ++ evs) = wellUsed cn (o || conns.contains cn) evs := by
+  induction conns generalizing o with
+  | nil => simp
+  | cons a t ih =>
+    simp only [List.map_cons, List.cons_append, wellUsed, ih, List.contains_cons]
+    congr 1
+    cases o <;> cases hc : t.contains cn <;> simp [Bool.beq_comm] <;> exact eq_comm
+
 end Cell2v.ClientServe.Shared
